@@ -487,3 +487,261 @@ Proof.
   pose proof (cli_response_clause mac c k rs auth Hk Hwf) as H2.
   rewrite H1. cbn [andb]. exact H2.
 Qed.
+
+(* ---- the server oracle holds for the model on all inputs ---- *)
+(* what the harness sockets see of one listener step: nothing for a drop; the
+   reply, serialised and re-parsed, at the socket the request came from (the
+   previous hop); a forwarded packet at the harness socket bound to the
+   addressed (host, port), if there is one.  Each with the MAC recomputed under
+   the host-host key for its first authenticator option. *)
+Definition srv_obs (mac : bytes -> macin -> bytes) (socks : list (bytes * Z)) (sender : Z) (k : bytes)
+    (nok : bool) (a : action) : list sobs :=
+  match a with
+  | Drop _ => []
+  | Send ToLastHop t => [mkSobs sender (deliver t nok) (recomputed_mac mac k (deliver t nok))]
+  | Send (ToHostPort host port) t =>
+      match sock_index socks host port 0 with
+      | Some i => [mkSobs i (deliver t nok) (recomputed_mac mac k (deliver t nok))]
+      | None => []
+      end
+  end.
+
+Section SrvOracle.
+
+Variable mac : bytes -> macin -> bytes.
+Variable reverse : Z * bytes -> option (Z * bytes).
+Variable fetch_key : keyreq -> option bytes.
+Variable ntp_handle : bytes -> bytes.
+
+Notation server_auth := (server_auth mac fetch_key).
+Notation server_step := (server_step mac reverse fetch_key ntp_handle).
+
+Lemma server_auth_decided : forall c q o k,
+  s_fetcher c = true -> carries spi_client q o -> fetch_key (keyreq_of q) = Some k ->
+  server_auth c q =
+    if mac_computable (rx_hdr q) && bytes_eqb (opt_mac o) (mac k (macin_rx o q)) then AuthOk k o else AuthBad.
+Proof.
+  intros c q o k Hf [H1 [H2 [H3 [H4 [H5 H6]]]]] Hk. unfold ScionGlue.server_auth.
+  rewrite Hf. apply Z.leb_le in H1. rewrite H1, H2, Z.eqb_refl. simpl. rewrite H3, H4, Z.eqb_refl, H5, H6, !Z.eqb_refl. simpl.
+  unfold keyreq_of in Hk. rewrite Hk. reflexivity.
+Qed.
+
+Lemma auth_bad_dropped : forall c q oob s n p,
+  server_auth c q = AuthBad -> rx_l4 q = Udp s (s_local_port c) n p ->
+  exists why, server_step c q oob = Drop why.
+Proof.
+  intros c q oob s n p Ha Hl.
+  unfold ScionGlue.server_step. rewrite Hl, Ha, Z.eqb_refl. simpl.
+  repeat dmg; eauto.
+Qed.
+
+Lemma for_service_inv : forall lp q,
+  for_service lp q = true -> exists s n p, rx_l4 q = Udp s lp n p /\ (lp =? endhost_port) = false.
+Proof.
+  intros lp q H. unfold for_service in H. destruct (rx_l4 q) as [s d n p| |]; try discriminate.
+  apply andb_true_iff in H. destruct H as [H1 H2]. apply Z.eqb_eq in H1. apply negb_true_iff in H2. subst d.
+  exists s, n, p. split; [reflexivity|exact H2].
+Qed.
+
+Lemma forward_due_inv : forall c socks q i,
+  forward_due (s_local_port c) (s_conn_port c) socks q = Some i ->
+  exists s d n p, forward_cond c q s d n p /\ sock_index socks (h_dst_raw (rx_hdr q)) d 0 = Some i.
+Proof.
+  intros c socks q i H. unfold forward_due in H.
+  destruct (rx_l4 q) as [s d n p| |] eqn:Hl; try discriminate.
+  match type of H with (if ?b then _ else _) = _ => destruct b eqn:Hb; [|discriminate] end.
+  repeat (apply andb_true_iff in Hb; let Hx := fresh "Hc" in destruct Hb as [Hb Hx]).
+  exists s, d, n, p. split; [|exact H]. unfold forward_cond.
+  apply negb_true_iff in Hc, Hc0. apply Z.eqb_neq in Hc, Hc0. apply Z.eqb_eq in Hc1, Hc5. apply Z.leb_le in Hc4.
+  repeat split; assumption.
+Qed.
+
+(* a reply to a UDP packet comes from a listener of the service, not of the end-host port *)
+Lemma reply_not_endhost : forall c q oob t s d n p,
+  server_step c q oob = Send ToLastHop t -> rx_l4 q = Udp s d n p ->
+  (s_local_port c =? endhost_port) = false.
+Proof.
+  intros c q oob t s d n p H Hl. unfold ScionGlue.server_step in H. rewrite Hl in H.
+  destruct (s_local_port c =? endhost_port) eqn:He; [|reflexivity]. exfalso.
+  repeat (dmh H; try discriminate).
+Qed.
+
+Variable socks : list (bytes * Z).
+Variable sender : Z.
+Variable k : bytes.
+Variable nok : bool.
+
+Notation obs_of c q oob := (srv_obs mac socks sender k nok (server_step c q oob)).
+
+Lemma srv_obs_drop : forall c q oob why, server_step c q oob = Drop why -> obs_of c q oob = [].
+Proof. intros c q oob why H. rewrite H. reflexivity. Qed.
+
+Lemma recomputed_mac_carries : forall spi q o, carries spi q o -> recomputed_mac mac k q = mac k (macin_rx o q).
+Proof. intros spi q o [_ [_ [Hf _]]]. unfold recomputed_mac. rewrite Hf. reflexivity. Qed.
+
+(* clause 1: a request whose MAC does not verify is never served *)
+Lemma srv_clause_bad_mac : forall c q oob,
+  wf_layers q -> (s_fetcher c = true -> fetch_key (keyreq_of q) = Some k) ->
+  match carries_auth spi_client q with
+  | Some a => if s_fetcher c && for_service (s_local_port c) q && negb (bytes_eqb (recomputed_mac mac k q) (opt_mac a))
+              then match obs_of c q oob with [] => true | _ => false end else true
+  | None => true
+  end = true.
+Proof.
+  intros c q oob Hwf Hkey.
+  destruct (carries_auth spi_client q) as [a|] eqn:Hca; [|reflexivity].
+  pose proof (carries_auth_carries _ _ _ Hwf Hca) as Hcar.
+  destruct (s_fetcher c) eqn:Hf; [|reflexivity].
+  destruct (for_service (s_local_port c) q) eqn:Hs; [|reflexivity].
+  destruct (bytes_eqb (recomputed_mac mac k q) (opt_mac a)) eqn:Hm; [reflexivity|]. cbn [andb negb].
+  destruct (for_service_inv _ _ Hs) as [s [n [p [Hl _]]]].
+  assert (Hne : opt_mac a <> mac k (macin_rx a q)).
+  { intro E. rewrite (recomputed_mac_carries _ _ _ Hcar), <- E, bytes_eqb_refl in Hm. discriminate. }
+  destruct (bad_mac_dropped mac reverse fetch_key ntp_handle c q oob a k s n p Hf Hcar (Hkey eq_refl) Hne Hl) as [why Hd].
+  rewrite (srv_obs_drop _ _ _ _ Hd). reflexivity.
+Qed.
+
+(* the authenticated reply, as the harness sees it, passes reply_authenticated *)
+Lemma auth_reply_authenticated : forall c h pt pp s p k',
+  (forall k m, zlen (mac k m) = 16) ->
+  let rh := reply_hdr c h pt pp in
+  let rl := reply_l4 ntp_handle c s p in
+  let t := mkTx (set_next rh E2E_CLASS)
+             (Some [mkOpt OPT_AUTH (meta_bytes spi_server auth_algorithm ++
+                      mac k' (macin_of spi_server auth_algorithm [0;0;0;0;0;0] rh L4_UDP rl))]) rl in
+  forall so, reply_authenticated (mkSobs so (deliver t nok) (recomputed_mac mac k' (deliver t nok))) = true.
+Proof.
+  intros c h pt pp s p k' Hlen rh rl t so.
+  set (tag := mac k' (macin_of spi_server auth_algorithm [0;0;0;0;0;0] rh L4_UDP rl)) in *.
+  set (o' := mkOpt OPT_AUTH (meta_bytes spi_server auth_algorithm ++ tag)) in *.
+  assert (Hlo : zlen (o_data o') = auth_opt_data_len).
+  { unfold o'. cbn [o_data]. unfold zlen. rewrite app_length, Nat2Z.inj_add.
+    change (Z.of_nat (length tag)) with (zlen tag). unfold tag. rewrite (Hlen k' _). reflexivity. }
+  unfold reply_authenticated. cbn [so_rx so_mac]. unfold carries_auth.
+  change (rx_ok (deliver t nok)) with true.
+  change (rx_layers (deliver t nok)) with [LT_SCION; LT_E2E; LT_UDP].
+  change (existsb (fun l => l =? LT_E2E) [LT_SCION; LT_E2E; LT_UDP]) with true.
+  change (rx_opts (deliver t nok)) with [o']. cbn [andb].
+  change (find_opt OPT_AUTH [o']) with (Some o'). cbv beta iota.
+  rewrite Hlo, Z.eqb_refl.
+  change (opt_spi o' =? spi_server) with true. change (opt_algo o' =? auth_algorithm) with true. cbn [andb].
+  unfold recomputed_mac. change (rx_opts (deliver t nok)) with [o'].
+  change (find_opt OPT_AUTH [o']) with (Some o'). cbv beta iota.
+  change (macin_rx o' (deliver t nok)) with (macin_of spi_server auth_algorithm [0;0;0;0;0;0] rh L4_UDP rl).
+  fold tag. change (opt_mac o') with tag. rewrite bytes_eqb_refl. unfold tag at 1. rewrite (Hlen k' _). reflexivity.
+Qed.
+
+(* clause 2: the reply to a verified request verifies at the client *)
+Lemma srv_clause_reply_auth : forall c q oob,
+  (forall k m, zlen (mac k m) = 16) ->
+  wf_layers q -> (s_fetcher c = true -> fetch_key (keyreq_of q) = Some k) ->
+  match carries_auth spi_client q with
+  | Some a => if s_fetcher c && for_service (s_local_port c) q && bytes_eqb (recomputed_mac mac k q) (opt_mac a)
+              then forallb reply_authenticated (obs_of c q oob) else true
+  | None => true
+  end = true.
+Proof.
+  intros c q oob Hlen Hwf Hkey.
+  destruct (carries_auth spi_client q) as [a|] eqn:Hca; [|reflexivity].
+  pose proof (carries_auth_carries _ _ _ Hwf Hca) as Hcar.
+  destruct (s_fetcher c) eqn:Hf; [|reflexivity].
+  destruct (for_service (s_local_port c) q) eqn:Hs; [|reflexivity].
+  destruct (bytes_eqb (recomputed_mac mac k q) (opt_mac a)) eqn:Hm; [|reflexivity]. cbn [andb].
+  destruct (for_service_inv _ _ Hs) as [s [n [p [Hl _]]]].
+  pose proof (server_auth_decided c q a k Hf Hcar (Hkey eq_refl)) as Ha.
+  destruct (mac_computable (rx_hdr q) && bytes_eqb (opt_mac a) (mac k (macin_rx a q))) eqn:Hv.
+  - destruct (server_step c q oob) as [why|d t] eqn:HA; [reflexivity|].
+    destruct d as [|host port].
+    + destruct (auth_reply_form mac reverse fetch_key ntp_handle c q oob k a s n p t Ha Hl HA) as [pt [pp [_ [_ [_ Ht]]]]].
+      subst t. cbn [srv_obs forallb]. rewrite andb_true_r.
+      apply (auth_reply_authenticated c (rx_hdr q) pt pp s p k Hlen).
+    + exfalso. apply (forward_iff mac reverse fetch_key ntp_handle) in HA.
+      destruct HA as [s0 [n0 [p0 [[_ [_ [_ [Hl' [_ [_ [_ [Hne _]]]]]]]] _]]]].
+      rewrite Hl in Hl'. inversion Hl'. congruence.
+  - destruct (auth_bad_dropped c q oob s n p Ha Hl) as [why Hd].
+    rewrite (srv_obs_drop _ _ _ _ Hd). reflexivity.
+Qed.
+
+(* clause 3a: one listener step sends at most one datagram *)
+Lemma srv_clause_at_most_one : forall c q oob, (zlen (obs_of c q oob) <=? 1) = true.
+Proof.
+  intros c q oob. destruct (server_step c q oob) as [why|d t]; [reflexivity|].
+  destruct d as [|host port]; [reflexivity|]. cbn [srv_obs].
+  destruct (sock_index socks host port 0); reflexivity.
+Qed.
+
+Lemma scmp_reply_type_inv : forall ty rt, scmp_reply_type ty = Some rt ->
+  ((ty =? SCMP_ECHO_REQUEST) && (rt =? SCMP_ECHO_REPLY)) || ((ty =? SCMP_TRACEROUTE_REQUEST) && (rt =? SCMP_TRACEROUTE_REPLY)) = true.
+Proof.
+  intros ty rt H. unfold scmp_reply_type in H.
+  destruct (ty =? SCMP_ECHO_REQUEST); [inversion H; reflexivity|].
+  destruct (ty =? SCMP_TRACEROUTE_REQUEST); [inversion H; reflexivity|discriminate].
+Qed.
+
+(* clause 3b: what is sent is a correctly addressed reply or an admissible forward *)
+Lemma srv_clause_addressing : forall c q oob,
+  forallb (fun o => if for_service (s_local_port c) q || match rx_l4 q with Scmp _ _ _ => true | _ => false end
+                    then reply_ok sender q (reverse (h_path_type (rx_hdr q), h_path (rx_hdr q))) o
+                    else forward_ok (s_local_port c) (s_conn_port c) socks q o) (obs_of c q oob) = true.
+Proof.
+  intros c q oob. destruct (server_step c q oob) as [why|d t] eqn:HA; [reflexivity|].
+  destruct d as [|host port].
+  - cbn [srv_obs forallb]. rewrite andb_true_r.
+    destruct (reply_addressing mac reverse fetch_key ntp_handle c q oob t HA) as [Hsw [Hrev Hl4]].
+    destruct Hsw as [S1 [S2 [S3 [S4 [S5 [S6 _]]]]]].
+    assert (Hc : for_service (s_local_port c) q || match rx_l4 q with Scmp _ _ _ => true | _ => false end = true).
+    { destruct Hl4 as [[s [d [n [p [Hl [Hd _]]]]]]|[ty [code [p [rt [Hl _]]]]]].
+      - pose proof (reply_not_endhost c q oob t s d n p HA Hl) as He.
+        unfold for_service. rewrite Hl, Hd, Z.eqb_refl, He. reflexivity.
+      - rewrite Hl. apply orb_true_r. }
+    rewrite Hc. unfold reply_ok. cbn [so_sock so_rx].
+    change (rx_hdr (deliver t nok)) with (tx_hdr t).
+    change (rx_ok (deliver t nok)) with true.
+    change (rx_l4 (deliver t nok)) with (tx_l4 t).
+    rewrite S1, S2, S3, S4, S5, S6, Hrev. cbn [opt_pair_eqb].
+    rewrite !Z.eqb_refl, !bytes_eqb_refl. cbn [andb].
+    destruct Hl4 as [[s [d [n [p [Hl [Hd Ht]]]]]]|[ty [code [p [rt [Hl [Hrt [Ht _]]]]]]]]; rewrite Hl, Ht.
+    + rewrite !Z.eqb_refl. reflexivity.
+    + rewrite (scmp_reply_type_inv _ _ Hrt), Z.eqb_refl, bytes_eqb_refl. reflexivity.
+  - apply (forward_iff mac reverse fetch_key ntp_handle) in HA.
+    destruct HA as [s [n [p [[_ [_ [_ [Hl [_ [_ [_ [Hn1 [Hcp Hn2]]]]]]]]] [Hh Ht]]]]]. subst host t.
+    cbn [srv_obs]. destruct (sock_index socks (h_dst_raw (rx_hdr q)) port 0) as [i|] eqn:Hsi; [|reflexivity].
+    cbn [forallb]. rewrite andb_true_r.
+    apply Z.eqb_neq in Hn1, Hn2.
+    unfold for_service. rewrite Hl, Hn1. cbn [andb orb].
+    unfold forward_ok. cbn [so_sock so_rx].
+    change (rx_l4 (deliver (forward_tx q oob) nok)) with (rx_l4 q). rewrite Hl, Hsi.
+    change (rx_ok (deliver (forward_tx q oob) nok)) with true.
+    rewrite Hcp, Hn1, Hn2. cbn [rx_hdr deliver forward_tx tx_hdr set_next h_dst_ia h_src_ia h_dst_type h_src_type h_dst_raw h_src_raw h_path_type h_path].
+    rewrite !Z.eqb_refl, !bytes_eqb_refl. reflexivity.
+Qed.
+
+(* clause 4: a packet due for forwarding to a visible socket is forwarded *)
+Lemma srv_clause_forward_due : forall c q oob,
+  match forward_due (s_local_port c) (s_conn_port c) socks q with
+  | Some i => existsb (fun o => so_sock o =? i) (obs_of c q oob)
+  | None => true
+  end = true.
+Proof.
+  intros c q oob. destruct (forward_due (s_local_port c) (s_conn_port c) socks q) as [i|] eqn:Hfd; [|reflexivity].
+  destruct (forward_due_inv c socks q i Hfd) as [s [d [n [p [Hfc Hsi]]]]].
+  assert (HA : server_step c q oob = Send (ToHostPort (h_dst_raw (rx_hdr q)) d) (forward_tx q oob)).
+  { apply (forward_iff mac reverse fetch_key ntp_handle). exists s, n, p. auto. }
+  rewrite HA. cbn [srv_obs]. rewrite Hsi. cbn [existsb so_sock]. rewrite Z.eqb_refl. reflexivity.
+Qed.
+
+Lemma srv_oracle_on_model : forall c q oob,
+  (forall k m, zlen (mac k m) = 16) ->
+  wf_layers q ->
+  (s_fetcher c = true -> fetch_key (keyreq_of q) = Some k) ->
+  C13_srv_ok (s_local_port c) (s_conn_port c) (s_fetcher c) socks sender q
+    (recomputed_mac mac k q) (reverse (h_path_type (rx_hdr q), h_path (rx_hdr q)))
+    (obs_of c q oob) = true.
+Proof.
+  intros c q oob Hlen Hwf Hkey. unfold C13_srv_ok. cbv zeta.
+  rewrite (srv_clause_bad_mac c q oob Hwf Hkey), (srv_clause_reply_auth c q oob Hlen Hwf Hkey),
+          (srv_clause_at_most_one c q oob), (srv_clause_addressing c q oob), (srv_clause_forward_due c q oob).
+  reflexivity.
+Qed.
+
+End SrvOracle.
